@@ -2720,6 +2720,9 @@ bool NifFile::SetShapeBoneBounds(const std::string& shapeName,
 		if (!bsSkin)
 			return false;
 
+		if (boneIndex >= bsSkin->nBones)
+			return false;
+
 		bsSkin->boneXforms[boneIndex].bounds = inBounds;
 		return true;
 	}
@@ -2748,6 +2751,9 @@ bool NifFile::GetShapeBoneBounds(NiShape* shape, const uint32_t boneIndex, Bound
 	if (skinForBoneRef) {
 		auto boneData = hdr.GetBlock(skinForBoneRef->dataRef);
 		if (boneData) {
+			if (boneIndex >= boneData->nBones)
+				return false;
+
 			outBounds = boneData->boneXforms[boneIndex].bounds;
 			return true;
 		}
